@@ -2,6 +2,8 @@ import Driver.Ops.Common
 import Driver.Ops.Curve
 import Driver.Ops.Area
 import Driver.Ops.Locate
+import Driver.Ops.Protocol
+import Driver.Ops.Algebraic
 
 /-!
 # Driver/Main — the model behind a one-line-in, one-line-out protocol (K := Rat)
@@ -14,7 +16,8 @@ open Driver
 
 /-- the op modules, tried in order -/
 def handlers : List (String → List V → Option String) :=
-  [Driver.Ops.Curve.handle, Driver.Ops.Area.handle, Driver.Ops.Locate.handle]
+  [Driver.Ops.Curve.handle, Driver.Ops.Area.handle, Driver.Ops.Locate.handle,
+   Driver.Ops.Protocol.handle, Driver.Ops.Algebraic.handle]
 
 def handle (op : String) (args : List V) : Option String :=
   handlers.firstM (fun h => h op args)
